@@ -2,6 +2,7 @@
 # Model: Isolation.v (two step machines over disjoint state + read-only global; histories); theorems: Props/C16.v.
 # The theorem is about the model's state partition; that the partition is the code's is what this run tests (partial):
 # every interleaving / sequence result is compared with the SOLO result of the engine model.
+import importlib
 import itertools
 import json
 import re
@@ -228,9 +229,13 @@ def run(ctx):
     ctx.rule = ('(a) %d pairs of queries of different kinds {select, aggregate, distinct+order, join, update, like, unnest, runtime error, parse error} over tables of <= 3 records, run in two threads under a cooperative '
                 'scheduler with a scheduling point at every get_record / write / finish: random and extreme schedules (thorough: all interleavings when <= 10 steps); (b) %d histories of 2-6 queries in one '
                 'interpreter; every result (trace, error, pulls) compared with the solo engine-model result; non-trivial = distinct (queries, schedule)') % (npairs, nseq)
+    # the history clause for rbql-js (sequential only: its query context is a module global, O3 / O23)
+    importlib.import_module('props.c16js').run(ctx)
 
 
 def replay(ctx, case):
+    if case.get('part') == 'c16js':
+        return importlib.import_module('props.c16js').replay(ctx, case)
     if case.get('mode') == 'csvseq':
         got = lib.run_impl_py('c16', [case], shards=1, extra_env={'VERIF_SCRATCH': lib.BUILD})
         ctx.count()
